@@ -137,6 +137,8 @@ class Interp:
     def __init__(self, units, hooks=None, fuel=20000, inputs=None):
         """units: {name: rows}; inputs: values returned by the external input function inp(k)"""
         self.inputs = inputs
+        self.cur_stmt = None
+        self.sink_events = []
         self.units = {n: Unit(rows) for n, rows in units.items()}
         self.outs = []
         self.hooks = hooks or {}
@@ -280,6 +282,7 @@ class Interp:
         if self.steps > self.fuel:
             raise GirError("fuel exhausted")
         act.cur = r
+        self.cur_stmt = r
         h = self.hooks.get("on_stmt")
         if h:
             h(act, r)
@@ -657,12 +660,76 @@ class Builtin:
         self.fn = fn
 
 
+class Tainted:
+    """A value produced at a configured source (tracked by identity of its origin statements through operators)."""
+
+    def __init__(self, origins):
+        self.origins = frozenset(origins)
+
+    def _mix(self, other):
+        o = set(self.origins)
+        if isinstance(other, Tainted):
+            o |= other.origins
+        return Tainted(o)
+
+    __add__ = __radd__ = __sub__ = __rsub__ = __mul__ = __rmul__ = __floordiv__ = __mod__ = _mix
+
+    def __neg__(self):
+        return Tainted(self.origins)
+
+    def __bool__(self):
+        return True
+
+    def __eq__(self, other):
+        return self is other
+
+    def __hash__(self):
+        return id(self)
+
+    def __lt__(self, other):
+        return False
+
+    __le__ = __gt__ = __ge__ = __lt__
+
+
+def origins_of(v, depth=0):
+    """source statements whose value is (or is held by) v"""
+    if isinstance(v, Tainted):
+        return set(v.origins)
+    out = set()
+    if depth > 3:
+        return out
+    if isinstance(v, (list, tuple)):
+        for x in v:
+            out |= origins_of(x, depth + 1)
+    elif isinstance(v, dict):
+        for x in v.values():
+            out |= origins_of(x, depth + 1)
+    elif isinstance(v, Obj):
+        for x in v.fields.values():
+            out |= origins_of(x, depth + 1)
+    return out
+
+
+def _source(interp, pos, named):
+    sid = interp.cur_stmt["stmt_id"] if interp.cur_stmt else -1
+    return Tainted([sid])
+
+
+def _sink(interp, pos, named):
+    sid = interp.cur_stmt["stmt_id"] if interp.cur_stmt else -1
+    interp.sink_events.append((sid, [sorted(origins_of(a)) for a in pos]))
+    return None
+
+
 def _out(interp, pos, named):
     interp.outs.append(pos[0] if len(pos) == 1 else tuple(pos))
     return None
 
 
 BUILTINS = {
+    "source": Builtin(_source),
+    "sink": Builtin(_sink),
     "out": Builtin(_out),
     "range": Builtin(lambda i, p, n: list(range(*p))),
     "len": Builtin(lambda i, p, n: len(p[0])),
